@@ -1029,3 +1029,23 @@ fn p1_page(page: Page<Size4KiB>, recursive_index: PageTableIndex) -> Page {
         page.p2_index(),
     )
 }
+
+/// Verification hook (feature `verif_hooks`): the pages through which the level-3, level-2 and
+/// level-1 tables of the given pages are reached for recursive index `r`, in the order
+/// `[p3(4K), p2(4K), p1(4K), p3(2M), p2(2M), p3(1G)]`.
+#[cfg(feature = "verif_hooks")]
+pub fn verif_recursive_pages(
+    page_4k: Page<Size4KiB>,
+    page_2m: Page<Size2MiB>,
+    page_1g: Page<Size1GiB>,
+    r: PageTableIndex,
+) -> [Page; 6] {
+    [
+        p3_page(page_4k, r),
+        p2_page(page_4k, r),
+        p1_page(page_4k, r),
+        p3_page(page_2m, r),
+        p2_page(page_2m, r),
+        p3_page(page_1g, r),
+    ]
+}
